@@ -115,6 +115,26 @@ func (p *Prog) verifyFunc(t target, findings []*Finding, caseIdx int) (fr *FuncR
 			}
 		}
 	}
+	// a closure verified on its own: its captured variables are arbitrary, pairwise distinct cells
+	if len(fn.FreeVars) > 0 {
+		e.freeMap = map[string]SV{}
+		var objs []string
+		for _, fv := range fn.FreeVars {
+			v := Val{c.fresh("Int", "fv_"+fv.Name()), "0"}
+			st.regs[fv] = v
+			c.assume("true", c.B("(and (< 0 %s) (< %s %s))", v[0], v[0], st.A))
+			c.nonNil[v[0]] = true
+			// the cell of a captured variable is reachable through this free variable only:
+			// a tag of its own keeps it apart from every typed object
+			c.assume("true", c.B("(= (tag %s) %d)", v[0], 9000+len(objs)))
+			c.objTags[v[0]] = []int{9000 + len(objs)}
+			for _, o := range objs {
+				c.assume("true", c.B("(not (= %s %s))", o, v[0]))
+			}
+			objs = append(objs, v[0])
+			e.freeMap[fv.Name()] = SV{t: v, typ: fv.Type()}
+		}
+	}
 	fr.entry = ei
 	e.args = args
 	e.entry = st
@@ -173,8 +193,8 @@ func (p *Prog) verifyFunc(t target, findings []*Finding, caseIdx int) (fr *FuncR
 			for _, r := range e.rets {
 				vars := e.paramVars()
 				bindResults(vars, fn.Signature.Results(), r.vals)
-				env := &Env{x: e, fn: fn, cur: r.st, old: e.entry, vars: vars}
-				old := &Env{x: e, fn: fn, cur: e.entry, old: e.entry, vars: vars}
+				env := &Env{x: e, fn: fn, cur: r.st, old: e.entry, vars: vars, free: e.freeMap}
+				old := &Env{x: e, fn: fn, cur: e.entry, old: e.entry, vars: vars, free: e.freeMap}
 				old.oldEnv = old
 				env.oldEnv = old
 				parts := splitConj(en.Expr)
